@@ -1,6 +1,6 @@
 #!/bin/bash
 # Build libUTAP.a from /repo's *current working tree* into /verif/_work/lib-<flavour>.
-# flavours: rel (-O1 -g, -DUTAP_VERIF), asan (same + ASan/UBSan), off (guard off, for sanity)
+# flavours: rel (-O1 -g, -DUTAP_VERIF), asan (same + ASan/UBSan), off (guard off, for sanity), cov (gcov instrumentation)
 # Incremental through make's mtime + -MMD dependency files.  Prints the library path.
 set -e
 FL=${1:-rel}
@@ -11,6 +11,7 @@ case $FL in
   rel)  FLAGS="-O1 -g -DUTAP_VERIF" ;;
   asan) FLAGS="-O1 -g -DUTAP_VERIF -fsanitize=address,undefined -fno-sanitize-recover=all -fno-omit-frame-pointer" ;;
   off)  FLAGS="-O1 -g" ;;
+  cov)  FLAGS="-O0 -g --coverage -DUTAP_VERIF" ;;   # development aid: which branches of /repo do the checks' inputs reach (tools/coverage.sh)
   *) echo "unknown flavour $FL" >&2; exit 2 ;;
 esac
 cat > "$OUT/Makefile" <<M
